@@ -71,6 +71,7 @@ func main() {
 
 	var rep report
 	overlay := map[string]string{}
+	depSeen := map[string]bool{}
 
 	for _, pkg := range pkgs {
 		if len(pkg.Errors) > 0 {
@@ -116,7 +117,46 @@ func main() {
 		}
 		// registration file
 		var b strings.Builder
-		b.WriteString("//go:build verif\n\npackage " + pkg.Name + "\n\nimport verifrt \"" + rtPath + "\"\n\nfunc init() {\n\tverifrt.Instrumented = true\n")
+		b.WriteString("//go:build verif\n\npackage " + pkg.Name + "\n\nimport verifrt \"" + rtPath + "\"\n")
+		// exported package-level variables of the module's dependencies (not the standard library) that this package
+		// imports: state the library can reach and change (a default rounding mode, a registry) is shared state too
+		var depRegs []string
+		ipaths := make([]string, 0, len(pkg.Imports))
+		for ip := range pkg.Imports {
+			ipaths = append(ipaths, ip)
+		}
+		sort.Strings(ipaths)
+		for _, ip := range ipaths {
+			first := strings.SplitN(ip, "/", 2)[0]
+			if !strings.Contains(first, ".") || strings.HasPrefix(ip, "github.com/woodsbury/jmespath") || depSeen[ip] {
+				continue
+			}
+			dep := pkg.Imports[ip]
+			if dep.Types == nil {
+				continue
+			}
+			alias := fmt.Sprintf("verifdep%d", len(depSeen))
+			depSeen[ip] = true
+			used := false
+			dscope := dep.Types.Scope()
+			dnames := dscope.Names()
+			sort.Strings(dnames)
+			for _, n := range dnames {
+				if v, ok := dscope.Lookup(n).(*types.Var); ok && v.Exported() {
+					full := ip + "." + v.Name()
+					depRegs = append(depRegs, fmt.Sprintf("\tverifrt.Register(%q, &%s.%s)\n", full, alias, v.Name()))
+					rep.Globals = append(rep.Globals, full)
+					used = true
+				}
+			}
+			if used {
+				b.WriteString("import " + alias + " \"" + ip + "\"\n")
+			}
+		}
+		b.WriteString("\nfunc init() {\n\tverifrt.Instrumented = true\n")
+		for _, l := range depRegs {
+			b.WriteString(l)
+		}
 		scope := pkg.Types.Scope()
 		names := scope.Names()
 		sort.Strings(names)
